@@ -17,7 +17,7 @@ for k in sorted(r, key=lambda s: (s.split("-")[0], int(s.split("-")[1]))):
     rows.append(f"| {k} | {title} | {', '.join(m['files'])[:60]} | {'; '.join(cells)} |")
 tab = "\n".join(rows)
 n = len(r)
-ROUNDS_WORD = "eleven"
+ROUNDS_WORD = "twelve"
 txt = open(f"{V}/tools/design_asbuilt.md").read()
 txt += f"""### 10.8 Seeded changes: which check catches which change
 
@@ -37,7 +37,8 @@ the edge of their range suggested; round 8: `Cnn-9`, pointed at the way the code
 and at the stand-alone tools; round 9: `Cnn-10`, the same brief with nine earlier descriptions per
 property to stay away from; round 10: `Cnn-11`, additionally told which slips had been used for
 *any* property, so that none would be re-used across properties; round 11: `Cnn-12`, ten properties
-only - C02, C04, C05, C06, C07, C11, C14, C16, C17, C19 - for lack of time). Each
+only - C02, C04, C05, C06, C07, C11, C14, C16, C17, C19 - for lack of time; round 12: `Cnn-13`,
+four properties - C05, C11, C14, C18 - in the last forty minutes). Each
 was confirmed by me (applies to HEAD, suite still 147 passed, its own `demo.py` exits 0 without
 and 1 with the change — `seeded/<id>/confirm.txt`) and is kept as
 `seeded/<id>/{{patch.diff, demo.py, notes.md, meta.json}}`. `tools/seed_matrix.py` applies each to
@@ -331,6 +332,16 @@ What the seeded changes taught, and what was added to the checks because of them
   key names is expected) -> schema options given as mappings, numbers, nested lists; C19-12 (SEC1
   prefix stripped from an already bare point) -> inventory of configured EC KSKs whose X coordinate
   begins with 0x04 or 0x00, on tokens that return the point wrapped and bare.
+* Round 12 (`Cnn-13`, four properties): first run 2 of 4 reported by their own check with a failing
+  input (C11-13: RSASHA512 signatures verified with SHA-256; the first draft of the C18 strengthening),
+  two not at all (C05, C14). All four are now reported with a failing input. Added: C18-13
+  (`get_p11_key` asks only the first module) -> tokens of two modules with the configured KSKs
+  spread over them, and an empty module before as well as after the one that holds the keys; C05-13
+  (a duration with a week part stops being read at the `W`) -> one request in three declares its
+  bounds in another ISO 8601 spelling of the same periods (P2W1D, PT360H, P14DT24H, minutes,
+  seconds); C14-13 (`round` instead of `int` on the signature times) -> expiration and inception of
+  the to-be-signed cases carry 0, 1, 499999, 500000, 750000 or 999999 microseconds (the model
+  already floors; only whole seconds had been generated).
 * Everything else in the {ROUNDS_WORD} rounds was caught by the check as it stood.
 
 ### 10.9 Running it
@@ -345,7 +356,7 @@ twenty properties (2026-10-02 20:18-20:49Z) took 31 min and reported no violatio
 tree; the twelve checks changed afterwards (debug-logging rotation, round 11) were re-run at the
 thorough tier (21:44-22:05Z, no violation); the committed `evidence/*.json` are from the quick pass
 run after the last change (22:05-22:14Z). The last sweep of `tools/seed_matrix.py` over the 220 seeded changes of rounds 1-10 (own property's
-check only, 18:25-20:09Z) had every one reported with a failing input; the ten of round 11 were swept on their own afterwards. `coqchk -o` over the twenty
+check only, 18:25-20:09Z) had every one reported with a failing input; the ten of round 11 and the four of round 12 were swept on their own afterwards. Session 3 (22:27Z on) added the injectivity theorems of C11 and C18 (`C11_duration_text_injective`, `C11_timestamp_text_injective`, `C18_written_forms_injective`) and re-ran C05, C11, C14, C18 on the unchanged tree after the strengthening (no violation; their committed evidence is from those runs). `coqchk -o` over the twenty
 `Props` files was re-run after the last Coq change (20:59Z, 5m44s): no axioms, nothing relying on
 type-in-type, unsafe fixpoints or assumed positivity (`evidence/coqchk.txt`).
 """
